@@ -80,11 +80,13 @@ StrictChange(gs, i, d) ==
 \* the crossing of the chord through samples i, i+1 (exact for piecewise linear sampling)
 CrossPos(gs, i) == <<i, Frac(gs[i], gs[i] - gs[i + 1])>>
 
-\* "(plus samples lying on the surface)".  With a direction filter the statement does not
-\* say which on-surface samples count; the requirement is therefore two-sided:
-\*   MUST  be reported: no existing neighbour contradicts the direction
-\*   MAY   be reported: at least one existing neighbour agrees with the direction
-\* (without a direction filter both coincide with "every on-surface sample").
+\* "(plus samples lying on the surface)".  With a direction filter the statement does not say
+\* which on-surface samples count, so the requirement is two-sided:
+\*   MUST be reported: on-surface samples that no existing neighbour contradicts (the trajectory
+\*        arrives from the side opposite to d or along the surface, and leaves to the side of d
+\*        or along the surface) -- these carry the compatible sign changes that pass through a sample;
+\*   MAY  be reported: every on-surface sample (the literal reading of the parenthesis).
+\* Without a direction filter both coincide with "every on-surface sample".
 PrevAgrees(gs, i, d) == d * gs[i - 1] <= 0
 NextAgrees(gs, i, d) == d * gs[i + 1] >= 0
 MustSample(gs, i, d) ==
@@ -92,11 +94,7 @@ MustSample(gs, i, d) ==
     /\ \/ d = 0
        \/ /\ (i > 1 => PrevAgrees(gs, i, d))
           /\ (i < Len(gs) => NextAgrees(gs, i, d))
-MaySample(gs, i, d) ==
-    /\ OnSurface(gs, i)
-    /\ \/ d = 0
-       \/ (i > 1 /\ PrevAgrees(gs, i, d))
-       \/ (i < Len(gs) /\ NextAgrees(gs, i, d))
+MaySample(gs, i, d) == OnSurface(gs, i)
 
 MustPos(gs, d) ==
     {<<i, FZero>> : i \in {j \in 1 .. Len(gs) : MustSample(gs, j, d)}}
